@@ -5,8 +5,7 @@
    and checks, as invariants over the enumeration (one initial state per tree),
 
      RoundTrip   : Parse(Canon(t)) = t            for every tree without a negation directly under a
-                                                  negation (such trees are what the parser builds from
-                                                  text that keeps "!" tokens adjacent),
+                                                  negation (the only trees the parser builds),
      Idempotent  : Canon(Parse(Canon(t))) = Canon(t)   for those trees,
      MeaningKept : for EVERY tree, also !(!x): Parse(Canon(t)) has the same truth table as t.
 
@@ -26,13 +25,16 @@ Leaf(a) == [op |-> "leaf", a |-> a]
 Not(t) == [op |-> "not", x |-> t]
 Nary(op, args) == [op |-> op, args |-> args]
 
-RECURSIVE Trees(_)
-Trees(d) ==
-    IF d = 0 THEN { Leaf(a) : a \in Atoms }
-    ELSE LET S == Trees(d - 1) IN
-         S \cup { Not(t) : t \in S }
-           \cup { Nary(op, <<x, y>>) : op \in {"and", "or"}, x \in S, y \in S }
-           \cup (IF d = 1 THEN { Nary(op, <<x, y, z>>) : op \in {"and", "or"}, x \in S, y \in S, z \in S } ELSE {})
+\* one more level of nesting over the trees in S (3-ary chains only over the atoms, to bound the count);
+\* T0..T2 are constant-level definitions so that TLC computes each of them once
+Step(S, tri) ==
+    S \cup { Not(t) : t \in S }
+      \cup { Nary(op, <<x, y>>) : op \in {"and", "or"}, x \in S, y \in S }
+      \cup (IF tri THEN { Nary(op, <<x, y, z>>) : op \in {"and", "or"}, x \in S, y \in S, z \in S } ELSE {})
+T0 == { Leaf(a) : a \in Atoms }
+T1 == Step(T0, TRUE)
+T2 == Step(T1, FALSE)
+Trees(d) == CASE d = 0 -> T0 [] d = 1 -> T1 [] d = 2 -> T2
 
 \* ---- printer ---------------------------------------------------------------------------------------
 Tok(k) == [t |-> k]
@@ -69,7 +71,8 @@ ParseOp(ts0) ==
                [] Kind(ts) = "lp" -> LET inner == ParseOr(Tail(ts)) IN
                                       IF inner.ok /\ Kind(inner.rest) = "rp" THEN Ok(inner.node, Tail(inner.rest)) ELSE Fail
                [] OTHER -> Fail
-    IN IF r.ok /\ s.neg THEN Ok(Not(r.node), r.rest) ELSE r
+    \* negation of a (parenthesised) negation collapses, like adjacent "!" tokens
+    IN IF r.ok /\ s.neg THEN Ok(IF r.node.op = "not" THEN r.node.x ELSE Not(r.node), r.rest) ELSE r
 
 AndLoop(nodes, ts) ==
     IF Kind(ts) = "and"
@@ -111,9 +114,18 @@ RoundTrip   == ~NotUnderNot(cur) => LET r == Parse(Canon(cur)) IN r.ok /\ r.node
 Idempotent  == ~NotUnderNot(cur) => Canon(Parse(Canon(cur)).node) = Canon(cur)
 MeaningKept == LET r == Parse(Canon(cur)) IN r.ok /\ SameMeaning(r.node, cur)
 
-\* the documented gap (C06 finding): the canonical text of !(!x) re-parses to x
-KnownGap == \A a \in Atoms : Parse(Canon(Not(Not(Leaf(a))))).node = Leaf(a)
-ASSUME KnownGap
+\* whatever the tree (also !(!x), which only an older parser could build), the parser's answer for the
+\* canonical text has no negation directly under a negation
+ParserNormal == ~NotUnderNot(Parse(Canon(cur)).node)
+
+\* regression lemma for the C06 finding fixed in /repo 88cb2cf: "!(!a)" parses to a (it used to parse to
+\* !(!a), whose canonical text "!!a" parses to a: canonical text and UniqueID were not a fixed point)
+ParenNegCollapses ==
+    \A a \in Atoms :
+        /\ Parse(<<Tok("not"), Tok("lp"), Tok("not"), [t |-> "leaf", a |-> a], Tok("rp")>>).node = Leaf(a)
+        /\ Parse(<<Tok("not"), Tok("lp"), Tok("lp"), Tok("not"), [t |-> "leaf", a |-> a], Tok("rp"), Tok("rp")>>).node = Leaf(a)
+        /\ Parse(<<Tok("not"), Tok("lp"), Tok("not"), Tok("lp"), Tok("not"), [t |-> "leaf", a |-> a], Tok("rp"), Tok("rp")>>).node = Not(Leaf(a))
+ASSUME ParenNegCollapses
 
 \* ---- quoting -------------------------------------------------------------------------------------
 Chars == {"dq", "sq", "x"}
